@@ -64,7 +64,7 @@ func (c09) Budget(tier string) runner.Budget {
 
 func (c09) Describe() runner.Description {
 	return runner.Description{
-		Rule: "each plan: (A) a node casts 1..4 blocks with transfer / contract transactions; every block, header, transaction and group the node produced or parsed is sent through Marshal/UnMarshal: the parsed object must re-hash to the sender's identifying hash and re-marshal to identical bytes; a block accepted by one incarnation is relayed as bytes and must be accepted by another with the same hash; edge-valued in-memory headers/transactions/groups (times in a seeded zone with sub-second part, zero and maximal integers, nil vs empty byte fields, prove values whose bytes start with zeros, request-id maps, empty and 200-transaction bodies) must reach a fixed point after one marshal/parse pass. (B) 20..120 corrupted deliveries: valid bytes of each message kind are bit-flipped, truncated, extended, stripped of one optional protobuf field, or replaced by random bytes, and handed to the exported parsers directly and, as envelopes, to the node's receive path (NewBlockMsg, ReqTransactionMsg, TransactionGotMsg handlers run as scheduler tasks). Any panic is a violation; afterwards an intact block must still be accepted. evaluations = codec round trips + corrupted deliveries. distinct_nontrivial = distinct (message kind, corruption kind, parse outcome, path) tuples.",
+		Rule: "each plan: (A) a node casts 1..4 blocks with transfer / contract transactions; every block, header, transaction and group the node produced or parsed is sent through Marshal/UnMarshal: the parsed object must re-hash to the sender's identifying hash and re-marshal to identical bytes; a block accepted by one incarnation is relayed as bytes and must be accepted by another with the same hash; edge-valued in-memory headers/transactions/groups (times in a seeded zone with sub-second part, zero and maximal integers, nil vs empty byte fields, prove values whose bytes start with zeros, request-id maps, empty and 200-transaction bodies) must reach a fixed point after one marshal/parse pass; the genesis header and fully populated boundary headers (prove value 0/1/255/256, zero counters, epoch times) and 10 seeded transactions with unusual field texts (upper-case / EIP-55 / 0X-prefixed / non-address sources and targets, binary and unicode data, extreme nonces and request ids) must keep their hash and every field. (B) 20..120 corrupted deliveries: valid bytes of each message kind are bit-flipped, truncated, extended, stripped of one optional protobuf field, or replaced by random bytes, and handed to the exported parsers directly and, as envelopes, to the node's receive path (NewBlockMsg, ReqTransactionMsg, TransactionGotMsg handlers run as scheduler tasks). Any panic is a violation; afterwards an intact block must still be accepted. evaluations = codec round trips + corrupted deliveries. distinct_nontrivial = distinct (message kind, corruption kind, parse outcome, path) tuples.",
 		Assumptions: []string{"consensus message decoders run under ConsensusHandler.Handle's recover() and cannot crash the process; they are not driven here", "sync-processor message kinds are not driven (the sync processor is not started)"},
 		Real:        []string{"middleware/types serialization (all Marshal*/UnMarshal*, PbTo*)", "network envelope codec and receive dispatch", "core ChainHandler (new block, transaction request)", "notify bus fan-out under the simulated scheduler", "golang/protobuf"},
 		Stub:        []string{"websocket gate", "ConsensusHelper", "sync processor / consensus handler"},
@@ -335,6 +335,96 @@ func (c09) Exec(raw json.RawMessage, st *simrt.Stats, log *simrt.Log) *simrt.Vio
 			return viol(-1, "no-fixed-point", "edge-header", "edge header %d does not reach a fixed point after one marshal/parse pass", k)
 		}
 		st.Evaluations++
+	}
+	// headers whose every field is set (no nil-vs-empty question): the identity must survive the codec,
+	// including boundary values a careless guard would drop (zero prove value, zero counters, epoch times)
+	{
+		gen := n.Chain.QueryBlockHeaderByHeight(uint64(0), true)
+		cands := []*types.BlockHeader{gen}
+		for k := 0; k < 4; k++ {
+			h := types.BlockHeader{Height: uint64(k), TotalQN: uint64(k / 2), Nonce: 0, CurTime: time.Unix(int64(k), 0).UTC(), PreTime: time.Unix(0, 0).UTC(),
+				ProveValue: big.NewInt(int64([]int{0, 1, 255, 256}[k])), Castor: []byte{0}, GroupId: []byte{0, 0}, Signature: []byte{0}, Random: []byte{0}, ExtraData: []byte{0},
+				PreHash: common.Hash{}, RequestIds: map[string]uint64{"z": 0}, Transactions: []common.Hashes{{common.Hash{}, common.Hash{}}}, EvictedTxs: []common.Hash{{}}}
+			h.Hash = h.GenHash()
+			cands = append(cands, &h)
+		}
+		for k, h := range cands {
+			if h == nil {
+				continue
+			}
+			w, err := types.MarshalBlockHeader(h)
+			if err != nil {
+				return viol(-1, "marshal-error", "boundary-header", "%v", err)
+			}
+			x, err := types.UnMarshalBlockHeader(w)
+			if err != nil || x == nil {
+				return viol(-1, "own-object-not-parseable", "boundary-header", "boundary header %d: %v", k, err)
+			}
+			if x.GenHash() != h.GenHash() || x.Hash != h.Hash {
+				return viol(-1, "hash-changed-by-codec", "boundary-header", "boundary header %d (height %d, prove value %v) re-hashes to %x after marshal/parse, identity %x", k, h.Height, h.ProveValue, x.GenHash().Bytes()[:6], h.GenHash().Bytes()[:6])
+			}
+			st.Evaluations++
+		}
+	}
+	// transactions with unusual but legal field contents: every authenticated field must come back
+	// byte for byte (the hash is computed over their text)
+	{
+		srcs := []string{node.Account(4), "0x" + strings.ToUpper(node.Account(5)[2:]), "0X" + node.Account(6)[2:], "0xAbCdEf0123456789aBcDeF0123456789abcdef01", "alice", "", "Ünïcode-名", "0x00"}
+		strs := []string{"", " ", "{\"a\":1}", "\x00\x01binary\xff", "UPPER lower", strings.Repeat("y", 300), "0xDEADbeef", "ünï\u2028"}
+		for k := 0; k < 10; k++ {
+			tx := &types.Transaction{Source: srcs[r.Intn(len(srcs))], Target: srcs[r.Intn(len(srcs))], Type: []int32{0, 100, 188, 200, -1, 1<<31 - 1}[r.Intn(6)],
+				Time: strs[r.Intn(len(strs))], Data: strs[r.Intn(len(strs))], ExtraData: strs[r.Intn(len(strs))], ExtraDataType: int32(r.Intn(3)),
+				Nonce: []uint64{0, 1, 1<<64 - 1}[r.Intn(3)], RequestId: []uint64{0, 7, 1<<64 - 1}[r.Intn(3)], SocketRequestId: strs[r.Intn(3)],
+				ChainId: []string{"", "9500", "0", "Z"}[r.Intn(4)]}
+			if r.Chance(0.5) {
+				sg := node.HarnessKeys[0].SK.Sign(common.Sha256([]byte{byte(k)}))
+				tx.Sign = &sg
+			}
+			if r.Chance(0.4) {
+				tx.SubTransactions = []types.UserData{{Address: uint64(r.Intn(3))}}
+			}
+			tx.Hash = tx.GenHash()
+			w, err := types.MarshalTransaction(tx)
+			if err != nil {
+				return viol(-1, "marshal-error", "edge-transaction", "%v", err)
+			}
+			x, err := types.UnMarshalTransaction(w)
+			if err != nil {
+				return viol(-1, "own-object-not-parseable", "edge-transaction", "%v", err)
+			}
+			if x.Hash != tx.Hash || x.GenHash() != tx.Hash {
+				field := "?"
+				switch {
+				case x.Source != tx.Source:
+					field = "source"
+				case x.Target != tx.Target:
+					field = "target"
+				case x.Data != tx.Data:
+					field = "data"
+				case x.ExtraData != tx.ExtraData:
+					field = "extra-data"
+				case x.Time != tx.Time:
+					field = "time"
+				case x.ChainId != tx.ChainId:
+					field = "chain-id"
+				case x.Nonce != tx.Nonce:
+					field = "nonce"
+				case x.Type != tx.Type:
+					field = "type"
+				}
+				return viol(-1, "hash-changed-by-codec", "edge-transaction-"+field, "transaction with source %q target %q re-hashes to %x after marshal/parse, identity %x", tx.Source, tx.Target, x.GenHash().Bytes()[:6], tx.Hash.Bytes()[:6])
+			}
+			// SocketRequestId is the local client-connection handle: it is not put on the wire by design
+			if x.RequestId != tx.RequestId || x.ExtraDataType != tx.ExtraDataType || (tx.Sign == nil) != (x.Sign == nil) ||
+				(tx.Sign != nil && !bytes.Equal(tx.Sign.Bytes(), x.Sign.Bytes())) {
+				return viol(-1, "field-changed-by-codec", "edge-transaction", "a field outside the hash (request id, extra-data type, signature) changed across marshal/parse")
+			}
+			w2, _ := types.MarshalTransaction(&x)
+			if !bytes.Equal(w, w2) {
+				return viol(-1, "remarshal-differs", "edge-transaction", "re-marshalling the parsed transaction gives different bytes")
+			}
+			st.Evaluations++
+		}
 	}
 	// relay: another incarnation accepts the relayed bytes with the same hashes
 	{
